@@ -9,9 +9,9 @@ COMMON_NOTE = ("Trusted: Lean 4.33 kernel (axioms ⊆ {propext, Classical.choice
                "every property theorem; no sorry/native_decide/bv_decide/own axioms); the hand-written Lean model is "
                "modelled, not verified code — it is tied to /repo on every run by the CLI-boundary correspondence "
                "(model vs dev-profile binary on the same generated snapshot, byte for byte) and the table translator "
-               "(tools/extract_tables.py regenerates Fsel/Gen/Tables.lean from the Rust sources); external crates and "
+               "(tools/extract_tables.py regenerates Fsel/Gen/Tables.lean from the Rust sources, tools/extract_docs.py Fsel/Gen/DocTables.lean from docs/usage.md); external crates and "
                "the OS appear as assumed definitions (regex fragment, serde_json/csv escaping, humansize, chrono with "
-               "fixed-offset zones, zip, libgit2, std::fs); f64 is modelled in ℚ and exact only on small dyadic values.")
+               "fixed-offset zones, zip, libgit2 via `git check-ignore`, std::fs); f64 is modelled in ℚ and exact only on small dyadic values (no signed zero).")
 
 CLAIMS = {
     "C01": {
